@@ -2,6 +2,20 @@ package strategy
 
 import "errors"
 
+// WriteObserver can optionally be implemented by an Iterator. The strategies
+// call ObserveWrite after every change (put, delete, drop) they actually made
+// to the LMDB, so that the caller can tell an empty write transaction (which
+// LMDB does not record) from one that changed data.
+type WriteObserver interface {
+	ObserveWrite()
+}
+
+func observeWrite(it Iterator) {
+	if o, ok := it.(WriteObserver); ok {
+		o.ObserveWrite()
+	}
+}
+
 // ErrSkip is an error returned by an Iterator to skip a Merge or Clean for an item.
 var ErrSkip = errors.New("skip")
 
